@@ -316,6 +316,34 @@ func tableEntries(root ssa.Value, field int, user *ssa.Function) (map[int64]*ssa
 				}
 				addr := st.Addr
 				if field >= 0 {
+					// an element built in its own temporary and stored as a whole: table[i] = *tmp
+					if ia, ok := addr.(*ssa.IndexAddr); ok && roots[ia.X] {
+						if ld, ok := st.Val.(*ssa.UnOp); ok && ld.Op == token.MUL {
+							if tmp, ok := ld.X.(*ssa.Alloc); ok && tmp.Referrers() != nil {
+								if k, ok := ia.Index.(*ssa.Const); ok && k.Value != nil {
+									for _, r := range *tmp.Referrers() {
+										fa, ok := r.(*ssa.FieldAddr)
+										if !ok || fa.Field != field || fa.Referrers() == nil {
+											continue
+										}
+										for _, u := range *fa.Referrers() {
+											if fs, ok := u.(*ssa.Store); ok && fs.Addr == ssa.Value(fa) {
+												switch x := fs.Val.(type) {
+												case *ssa.Function:
+													out[k.Int64()] = x
+												case *ssa.MakeClosure:
+													if f2, ok := x.Fn.(*ssa.Function); ok {
+														out[k.Int64()] = f2
+													}
+												}
+											}
+										}
+									}
+								}
+							}
+						}
+						continue
+					}
 					fa, ok := addr.(*ssa.FieldAddr)
 					if !ok || fa.Field != field {
 						continue
